@@ -239,6 +239,20 @@ CLAIMS = {
         "compares the reported pinch of every zone of 280+ random problems with the zeros of an exact Fraction cascade.",
    technique="Lean 4 proof of the decision logic over lists + correspondence testing + exact-cascade oracle on service output",
    design="§6 C06"),
+ "C18": dict(
+   text="Partial proof (Lean 4). The thermodynamic states come from CoolProp (C++ property library, not modelled): the second-law, "
+        "isenthalpic-throttling and saturation-pressure clauses are decided by the oracle against CoolProp itself. Proved for ALL "
+        "state enthalpies and duties about the model of the cycle's bookkeeping (_get_metrics, build_stream_collection; tied to the "
+        "code on the five metrics and on every condenser stream duty of 250+ cycles per run): first_law (Q_cond = Q_evap + work), "
+        "work_pos and cop_relation (COP_h = COP_r + 1) whenever h3 <= h0 < h1, streams_carry_duty (streams built from a monotone "
+        "profile carry exactly their exchanger's duty, none negative: induction over the profile), stream_sets_order_independent "
+        "(no state), legacy_order_dependent (kernel-decided witness that the bookkeeping before fix 275087a gave 1000x the "
+        "evaporator duty depending on request order). Oracle: 10 refrigerants x random evaporating/condensing temperatures inside "
+        "the two-phase range, superheat, subcooling, efficiency, duty x 5 request orders: first law, positive work, COP relation, "
+        "entropy non-decreasing in compression and throttling, h3 = h2, saturation pressures, stream sets carry the duties, cool / "
+        "heat monotonically, order-independent.",
+   technique="Lean 4 proof of the cycle bookkeeping (algebra + induction over the profile) + correspondence + first/second-law oracle against CoolProp",
+   design="§6 C18"),
  "C19": dict(
    text="Proof (Lean 4): for every finite sequence of setter calls on a constructed stream no exception is raised and CP*span = duty, "
         "t_min < t_max, shifted bounds = real bounds moved by dt_cont in the direction of the kind (which follows the current "
